@@ -43,6 +43,7 @@ fn run_property(id: &str, ctx: &RunCtx) -> bool {
 fn replay_input(id: &str, v: &Value) -> Result<Vec<Failure>, String> {
     let source = v["input"]["source"].as_str();
     match id {
+        "C12" if v["choices"].is_array() && v["check"].as_str() == Some("include-arrangement") => fsprops::replay_arrangement("C12:", v),
         "C01" | "C02" | "C14" | "C12" => {
             let p = match id {
                 "C01" => textprops::P::C01,
@@ -84,7 +85,18 @@ fn replay_input(id: &str, v: &Value) -> Result<Vec<Failure>, String> {
                 Ok(out)
             }
         }
-        "C03" => pipeline::replay_c03(v),
+        "C03" => {
+            if v["choices"].is_array() && v["check"].as_str() == Some("include-arrangement") {
+                fsprops::replay_arrangement("C03:", v)
+            } else if let (Some(c), Some(d)) = (v["input"]["construct"].as_str(), v["input"]["depth"].as_u64()) {
+                let mut out = vec![];
+                fsprops::check_c03_chain(c, d as usize, v["input"]["tail"].as_bool().unwrap_or(false), &mut out);
+                fsprops::cleanup_work();
+                Ok(out)
+            } else {
+                pipeline::replay_c03(v)
+            }
+        }
         "C06" | "C07" | "C13" => {
             if v["choices"].is_array() {
                 semprops::replay_joint(id, v)
@@ -265,6 +277,28 @@ fn main() {
             std::mem::forget(p);
         });
         child.unwrap().join().unwrap();
+        return;
+    }
+    if args.len() >= 3 && args[1] == "forms" {
+        // developer aid: print the fixed / matrix programs whose name contains the argument and
+        // what the joint walk says about them
+        let mut progs = semforms::fixed_programs();
+        progs.extend(semforms::probe_matrix());
+        for (name, prog) in progs.iter().filter(|(n, _)| n.contains(args[2].as_str())) {
+            let seed = [0u32; 0];
+            let mut src = Src::new(&seed);
+            let pr = synprops::print_program(&mut src, prog, layout::Style::Spaced);
+            println!("=== {name}\n{}", pr.text);
+            match semprops::joint(prog, &pr) {
+                None => println!("--> not a clean parse: {:?}", oq3_syntax::SourceFile::parse(&pr.text).errors()),
+                Some(j) if j.crashed => println!("--> analysis crashed"),
+                Some(j) => {
+                    for f in &j.fails {
+                        println!("--> {} {}", f.key, f.detail.get("expected").map(|x| x.to_string()).unwrap_or_default());
+                    }
+                }
+            }
+        }
         return;
     }
     if args.len() >= 3 && args[1] == "sema" {
